@@ -872,6 +872,69 @@ namespace
     }
 }
 
+namespace
+{
+    // C08 only: the multi-threaded router and the multi-threaded kernel dispatcher with real
+    // threads (thread counts growing and shrinking between calls on one graph) under the
+    // sanitizers.  Results are not judged here (C10 does that under the controlled scheduler).
+    template <class G>
+    void c08_threaded_on(Ctx& ctx, G& grid, const GridSpec& gs)
+    {
+        std::string w = "g=" + gs.str() + ";threaded=1";
+        ctx.world_fn = [w]() { return w; };
+        ctx.current_stage = "threaded-router-and-kernels";
+        alarm(60);
+        std::size_t n = static_cast<std::size_t>(gs.size());
+        std::vector<double> f0(n), f1(n);
+        for (std::size_t i = 0; i < n; ++i)
+        {
+            f0[i] = static_cast<double>((i * 5 + 2) % 4);
+            f1[i] = static_cast<double>(n - i) * 0.5;
+        }
+        Built<G> b = build_graph(grid, Program::parse("single2"));
+        auto& fg = *b.fg;
+        for (int t : { 2, 3, 2, 4 })
+        {
+            b.singles[0]->m_threads_count = t;
+            auto fld = make_field(grid, (t % 2) ? f1 : f0);
+            fg.update_routes(fld);
+            ++ctx.rep.ops;
+        }
+        struct K
+        {
+            int t, mb, ml;
+            fs::flow_graph_traversal_dir dir;
+        };
+        for (K k : { K{ 2, 1, 1, fs::flow_graph_traversal_dir::breadth_upstream }, K{ 4, 1, 1, fs::flow_graph_traversal_dir::breadth_upstream },
+                     K{ 3, 2, 2, fs::flow_graph_traversal_dir::breadth_upstream }, K{ 2, 100, 1, fs::flow_graph_traversal_dir::breadth_upstream },
+                     K{ 5, 1, 100, fs::flow_graph_traversal_dir::breadth_upstream } })
+        {
+            (void) run_depth_kernel(fg, k.dir, k.t, k.mb, k.ml);
+            ++ctx.rep.ops;
+        }
+        b.singles[0]->m_threads_count = 3;
+        auto fld = make_field(grid, f0);
+        fg.update_routes(fld);
+        alarm(0);
+        ++ctx.rep.evaluations;
+        ++ctx.rep.worlds;
+        ctx.rep.hit("threaded-scenarios");
+    }
+
+    void c08_threaded(Ctx& ctx, const std::string& only = "")
+    {
+        std::vector<GridSpec> specs = { raster_spec(QUEEN, 3, 3, "VCVC", 1, 1, true), raster_spec(QUEEN, 3, 4, "LLVC", 1, 2, false),
+                                        raster_spec(ROOK, 3, 3, "VCCC", 1, 1, true), profile_spec(7, "VC", 1.0, true),
+                                        profile_spec(7, "VC", 1.0, false), mesh_spec("1111", 1, 0, 2) };
+        for (auto& g : specs)
+        {
+            if (!only.empty() && g.str() != only)
+                continue;
+            with_grid(g, [&](auto& grid) { c08_threaded_on(ctx, grid, g); });
+        }
+    }
+}
+
 int main(int argc, char** argv)
 {
     return sse_main(argc, argv, { "C01", "C02", "C03", "C04", "C05", "C06", "C19" },
@@ -884,6 +947,13 @@ int main(int argc, char** argv)
                                std::fprintf(stderr, "flow harness does not serve %s\n", a.property.c_str());
                                std::_Exit(2);
                            }
+                           if (c08_mode() && ctx.replay_mode && parse_kv(a.replay).count("threaded"))
+                           {
+                               c08_threaded(ctx, parse_kv(a.replay)["g"]);
+                               return;
+                           }
+                           if (c08_mode() && !ctx.replay_mode && a.property == "C01" && ctx.shard == 0)
+                               c08_threaded(ctx);
                            if (ctx.replay_mode)
                            {
                                GridSpec g;
